@@ -219,9 +219,25 @@ func c04ShortTTL(t *testing.T, run *verifkit.Run, base string) {
 	var wg sync.WaitGroup
 	sem := make(chan bool, 8)
 	caseNo := 0
+	// every WriteBlock in this stream belongs to a "slow-new-put" case (the
+	// other cases PUT/TOUCH an existing intact copy, which never reaches
+	// WriteBlock): hold it for 3 s before the data is copied
+	verifSetHook(func(label string) {
+		if label == "WriteBlock.io.Copy#1" {
+			time.Sleep(3 * time.Second)
+		}
+	})
+	defer verifSetHook(nil)
 	run.Cases("ttl", n, func(i int, rng *verifkit.Rand) {
 		caseNo++
 		c := tc{Age: rng.PickStr("1s", "2s", "3s", "4s", "5s"), A: rng.PickStr("put", "put", "touch"), Remover: rng.PickStr("delete", "trashlist")}
+		if rng.Chance(1, 4) {
+			// a NEW block whose write is slow (held for 3 s at a yield point
+			// before the data is copied): the acknowledgement comes at t, and the
+			// stored timestamp must not be older than that by the time spent
+			// queueing/writing
+			c = tc{Age: "none", A: "slow-new-put", Remover: c.Remover}
+		}
 		age, _ := time.ParseDuration(c.Age)
 		frng := rng.Fork()
 		no := caseNo
@@ -237,10 +253,18 @@ func c04ShortTTL(t *testing.T, run *verifkit.Run, base string) {
 			e.cluster.Collections.BlobSigningTTL = arvados.Duration(ttl)
 			h, data := e.hashes[0], e.blocks[0]
 			mtime0 := time.Now().Add(-age)
-			vkPlant(t, e.vols[0].Root, h, data, mtime0)
+			if c.A == "slow-new-put" {
+				// nothing planted; the "old timestamp" is the moment the write starts
+				mtime0 = time.Now()
+			} else {
+				vkPlant(t, e.vols[0].Root, h, data, mtime0)
+			}
 			tAck0 := time.Now()
 			var code int
-			if c.A == "put" {
+			if c.A == "slow-new-put" {
+				code = e.do("PUT", "/"+h, data).Code
+				tAck0 = time.Now().Add(-50 * time.Millisecond) // acknowledged just now (the write itself took ~3 s)
+			} else if c.A == "put" {
 				code = e.do("PUT", "/"+h, data).Code
 			} else {
 				req := httptest.NewRequest("TOUCH", "/"+h, nil)
